@@ -60,6 +60,27 @@ def _match(name_list, t):
     return False
 
 
+def _never_written_in_part(B, l):
+    """no statement assigns to a field of local l, no call writes into one, and l is never borrowed mutably: what a literal put into it is still there"""
+    cache = B.__dict__.setdefault('_nwp', {})
+    if l not in cache:
+        ok = True
+        for blk in B.blocks:
+            for st in blk['s']:
+                if st.get('k') != '=':
+                    continue
+                if st['pl']['l'] == l and st['pl'].get('p'):
+                    ok = False
+                rv = st['rv']
+                if rv.get('k') in ('ref', 'rawptr') and rv['pl']['l'] == l and (rv.get('mut') or rv['k'] == 'rawptr'):
+                    ok = False
+            t = blk['t']
+            if t.get('k') == 'call' and t.get('dst') and t['dst']['l'] == l and t['dst'].get('p'):
+                ok = False
+        cache[l] = ok
+    return cache[l]
+
+
 def canon_place(B, pl, depth=0, at=None):
     base = _canon_local(B, pl['l'], depth, at)
     projs = []
@@ -125,6 +146,10 @@ def canon_place(B, pl, depth=0, at=None):
                     continue
                 if rv_.get('ak') == 'adt' and isinstance(projs[0], str) and projs[0] == 'as:' + str(rv_.get('var')) and len(projs) > 1 and isinstance(projs[1], str) and projs[1] in (rv_.get('fn') or []):
                     base, projs = canon(B, rv_['ops'][rv_['fn'].index(projs[1])], depth + 1), projs[2:]
+                    continue
+                if rv_.get('ak') == 'adt' and isinstance(projs[0], str) and not projs[0].startswith('as:') and projs[0] in (rv_.get('fn') or []) and len(rv_.get('fn') or []) == len(rv_['ops']) and _never_written_in_part(B, base[1]):
+                    # a field of a struct literal (values gathered into a header struct by a spliced-in helper) is the value that was put there
+                    base, projs = canon(B, rv_['ops'][rv_['fn'].index(projs[0])], depth + 1), projs[1:]
                     continue
         break
     if not projs:
